@@ -424,9 +424,13 @@ fn run_c10(args: &Args, out: &mut Out) {
     }
     // boundary tuples: count 0/1 with non-empty proof, huge counts with short proofs
     let z = [0u8; 32];
-    for (i, n, plen) in [(0u64, 0u64, 0usize), (0, 0, 1), (0, 1, 1), (1, 1, 0), (0, 2, 0), (5, 1u64 << 40, 40), (0, 1u64 << 62, 62), ((1u64 << 62) - 1, 1u64 << 62, 62), (3, (1u64 << 63) - 1, 63)] {
+    for (i, n, plen) in [(0u64, 0u64, 0usize), (0, 0, 1), (0, 1, 1), (1, 1, 0), (0, 2, 0), (5, 1u64 << 40, 40), (0, 1u64 << 62, 62), ((1u64 << 62) - 1, 1u64 << 62, 62), (3, (1u64 << 63) - 1, 63), (3, 1u64 << 63, 63), (3, (1u64 << 63) + 1, 64), (1u64 << 63, (1u64 << 63) + 1, 1), (0, u64::MAX, 64), (u64::MAX - 1, u64::MAX, 64), (u64::MAX - 1, u64::MAX, 63), (u64::MAX, u64::MAX, 64)] {
         let proof: Vec<[u8; 32]> = (0..plen).map(|_| rng.bytes32()).collect();
         c10_verify_case(out, z, b"x", &proof, i, n, "boundary");
+        // the same tuple with the root that the RFC recomputation yields (valid iff the length fits)
+        if let Some(r) = rfc_root_from_path(sha(&[&[0u8], b"x"]), &proof, i, n) {
+            c10_verify_case(out, r, b"x", &proof, i, n, "boundary-valid");
+        }
     }
 }
 
